@@ -160,3 +160,13 @@ SELECT
     tbl.a,
     b
 FROM tbl
+-- ----
+SELECT
+    a,
+    foo.b
+FROM tbl
+-- ----
+SELECT
+    t.payload.user_id,
+    t.payload.country
+FROM t
